@@ -26,3 +26,47 @@ chk('C16', 'Hypothesis workbook generator; written books read back and compared 
     'Random workbooks, plain and overridden calculations, three sinks (fresh books, loaded books of a partial model, disk + openpyxl data_only): every cell of every solved node must sit at its own book/sheet/coordinates with the normalised value, cells outside the solution must be untouched, compare() with the written files must be empty.',
     'The solution is taken from the model (its correctness is C03/C07); an openpyxl cell holding "" counts as empty; circular models are not written.',
     'DESIGN.md 2/C16')
+chk('C08', 'Hypothesis workbook/formula generator; differential compiled-vs-interpreted-vs-reference',
+    'Model level: random workbooks x input lists (constant cells, formula cells, single/multi-cell names, ranges) x output lists mixing dependent and independent cells x argument tuples of every kind: compile(ins, outs)(*args) must equal a fresh model\'s calculate with those inputs and the independent evaluator. Formula level: random scalar trees compiled with Parser, arguments in func.inputs order, must equal the same formula with the arguments written as literals and the reference evaluator; swapping two arguments must swap their meaning.',
+    'Precondition by construction: >= 1 output downstream of the inputs, no output is an input (compile refuses other lists loudly). Multi-cell inputs consist of populated, non-array cells and contain no blank elements. Aggregations are excluded at formula level (reference vs literal semantics differ there).',
+    'DESIGN.md 2/C08')
+chk('C14', 'Hypothesis workbook generator + fault injection (files deleted/corrupted, unknown names); metamorphic W vs W+faults through the reference evaluator',
+    'Random workbooks with 1-3 injected faults (unknown functions incl. _xlfn., absent sheets, absent / unreadable workbook files, undefined names, #REF! literals), replacing constants that W\'s own formulas depend on or in free cells, each with strict / IFERROR / ISERROR dependents; both load paths. Loading and calculation must return, faulty cells must be #NAME? / #REF!, every other cell must equal the independent evaluation of W with the faulty cells replaced by that error.',
+    'Which of #REF!/#NAME? a reference fault shows is not asserted; a corrupt primary file passed to loads() is not generated.',
+    'DESIGN.md 2/C14')
+chk('C01', 'exhaustive operator pair/triple chains + Hypothesis trees x spellings vs an independent precedence-climbing parser and tree evaluator',
+    'Every ordered pair and triple of the 12 binary operators with every single decoration on each operand (31 249 chains, thorough; 3 601 quick) plus random trees to depth 5 over the whole vocabulary in 3-7 spellings each (parentheses, whitespace, case, number formats, sign runs); expected tree from a parser written from Excel\'s precedence table; shape (get_expr, __name__, to_dict), values on 5-8 operand assignments, spelling invariance and export round trip are asserted. A spy function registered through get_functions() observes argument splitting.',
+    'Trusts vf/gen/trees.parse_chain (own precedence table) and vf/xlref/evaltree; spellings with sign runs assert values only; x%% and reversed-corner ranges are outside the grammar.',
+    'DESIGN.md 2/C01')
+chk('C04', 'exhaustive column enumeration + boundary enumeration + Hypothesis spellings; relational identity/injectivity/read-back oracle',
+    'All 16 384 columns both ways; 360 boundary rectangles x every form x $ subsets x case x qualifier; every legal sheet-name character; Hypothesis rectangles x 7 sheet-name classes x workbook/directory qualifiers x 6-8 spellings; near-miss pairs; defined names. All spellings of one denotation must give one identifier at both observation points, different denotations different identifiers, every identifier must read back to itself and the same rectangle, and be the input key of a compiled formula.',
+    'No identifier format is asserted, only relations. [0]Sheet!, book-qualified names, texts beyond XFD, leading/trailing blanks in sheet names are not asserted.',
+    'DESIGN.md 2/C04')
+chk('C05', 'enumerated shape combinations + Hypothesis; array call vs per-element scalar calls vs own lift/fit reference',
+    'Value shapes x destination shapes x 8 observation points for fitting; 12 binary + 3 unary operators x all compatible shape pairs; ~60 element-wise functions over compatible shape tuples; CONCATENATE/IFS/SWITCH with 1-40 arguments padded across the 31/32 boundary. Oracles: the same function called once per element, an independent lift/fit implementation, few-vs-many argument equality.',
+    'Incompatible shapes (BroadcastError, pinned by the repo\'s tests) and single-cell destinations with multi-cell plain values (implicit intersection) are not asserted.',
+    'DESIGN.md 2/C05')
+chk('C10', 'exhaustive digraph enumeration + Hypothesis cyclic workbooks with a three-valued per-cell oracle; child processes for hash seeds',
+    'simple_cycles against brute force on all 66 066 digraphs with <= 4 nodes (both tiers) and random graphs to 9 nodes; random workbooks on cyclic dependency graphs with strict and guarded (IF/IFS/IFERROR/IFNA) edges, all guard values, dict and file routes, insertion orders, PYTHONHASHSEED 0..3 in children; each cell is MUST_CIRC / MUST_VALUE(v) / EITHER(v) from an independent lazy evaluator.',
+    'Cycles mixing selected and unselected guarded branches are EITHER (the statement promises resolution only when none is selected); which error a dependent shows is not asserted; termination is observed with a watchdog (a trip is inconclusive).',
+    'DESIGN.md 2/C10')
+chk('C11', 'per-function sweep over a hand-written arity table + Hypothesis tuples; totality, value-domain and error-propagation oracle with exception bucketing',
+    'Every name in the function table x every admissible arity x a baseline tuple with each position replaced by every pool value (scalars of all kinds, blanks, ranges, arrays), plus random tuples; observed at Cell level (raises=True) and at get_functions()[F](*args). No exception, only Excel values, and - outside the documented exempt list - an error in a consumed argument gives an error result. Failures are bucketed by (exception type, innermost repo frame).',
+    'Arity table from Excel\'s documentation (2 names unverified, listed in evidence); non-terminating digit arguments are bounded by construction and probed once in a killable child.',
+    'DESIGN.md 2/C11')
+chk('C12', 'boundary grids + Hypothesis argument tuples per function family vs one reference implementation per function',
+    '84 listed functions; each call is one =FUNC(args) through Cell with typed literals, references (1x1-3x3 with blanks), array constants or omitted slots; permuted calls for order-invariant functions; lifted calls for element-wise ones; ROUND family on Decimal(repr(x)); each reference has an explicit asserted domain, outside it only "an Excel value comes back" is asserted.',
+    'Trusts vf/xlref/c12_funcs.py (my reading of Excel\'s definitions); numeric text inside referenced ranges under aggregations, locale-dependent text and |x| < 1e-4 display are not asserted.',
+    'DESIGN.md 2/C12')
+chk('C13', 'enumerated volatile-term x context x path grid + Hypothesis formulas/workbooks with a harness-controlled clock',
+    'NOW/TODAY/RAND/RANDBETWEEN inside 0-6 nested contexts through 11 ways of obtaining an executable (Parser compile, its deepcopy/dill, Cell, from_dict, JSON, deepcopy/dill of the model, xlsx file, file+JSON, ExcelModel.compile), 3-6 calls with the clock advanced (incl. across midnight/month/year ends); NOW/TODAY must equal the harness instant of each call, RAND/RANDBETWEEN must lie in range and change, dependents must agree with their precedent in the same solution.',
+    'The clock is replaced by a shim module installed per case through sut; np.random seeded from the case; two volatile calls in one formula are not asserted.',
+    'DESIGN.md 2/C13')
+chk('C18', 'atheris coverage-guided fuzzing + Hypothesis token soups / single-edit mutants / random text with an own partial grammar as validity predicate',
+    'Only FormulaError may leave Parser.ast (escapes bucketed by exception type and innermost frame); texts my grammar classifies as certainly invalid (unbalanced brackets, unterminated strings, stray characters, missing/adjacent operands, ragged arrays) must be rejected; numeric literals in every Excel form must evaluate to Decimal(text); accepted texts the grammar calls valid must round-trip. atheris runs the same oracle inside the target (falls back to Hypothesis only, labelled, if unavailable).',
+    'The validity predicate claims only texts it can classify with certainty; round trip through quoted sheet names / sign runs / x%% is excluded (owned by C04/C01).',
+    'DESIGN.md 2/C18')
+chk('C19', 'enumerated key-vector / table / criteria grids + Hypothesis vs linear-scan reference definitions and INDEX(MATCH()) metamorphic relation',
+    'MATCH in all modes on sorted number/text/logical vectors (keys below/at/between/above/other type, other letter case, wildcards) and exact mode on every short mixed vector with duplicates/blanks/errors; INDEX on all shapes up to 6x6 with indexes in/at/beyond bounds; LOOKUP/VLOOKUP/HLOOKUP compared with own reference and with the repo\'s INDEX(..,MATCH(..)); COUNTIF/SUMIF/AVERAGEIF for 72 criteria x ranges of every kind against per-element matching.',
+    'Approximate modes on unsorted/duplicated keys, blank/error lookup values and criteria, ~~ escapes and numeric-looking text inside ranges are not asserted.',
+    'DESIGN.md 2/C19')
